@@ -34,7 +34,8 @@ def _shorts(lst):
 
 
 def _encode(cli):
-    res = [{"check": r["check"], "count": r["count"], "paths": _shorts(r["shorts"])} for r in cli["json"].get("result", [])]
+    res = [{"check": r["check"], "count": r["count"], "paths": _shorts(r["shorts"]), "blines": r["blines"]}
+           for r in cli["json"].get("result", [])]
     return {
         "cli": [{"name": c["name"], "exit": c["exit"], "exc": c["exc"]} for c in cli["cli"]],
         "json": {"success": cli["json"].get("success", False), "error": cli["json"].get("error", "?"), "result": res},
